@@ -302,9 +302,9 @@ def gen_format(rng, d):
         lines.append("/FRAMEOFFSET %d" % rng.randint(0, 5))
     names = []
     raws = []
-    for i in range(rng.randint(1, 4)):
+    for i in range(rng.randint(1, 5)):
         t = rng.choice(TYPES)
-        spf = rng.choice([1, 1, 2, 3, 5])
+        spf = rng.choice([1, 1, 2, 3, 4, 5, 8])
         nm = "r%d" % i
         lines.append("%s RAW %s %d" % (nm, t, spf))
         names.append(nm)
@@ -325,9 +325,15 @@ def gen_format(rng, d):
     for i in range(rng.randint(2, 10)):
         a = rng.choice(names); b = rng.choice(names)
         nm = "d%d" % i
-        kind = rng.randrange(14)
+        kind = rng.choice(list(range(16)) + [14, 14, 4, 5, 10])
         if kind == 0:
             lines.append("%s LINCOM 2 %s 1.5 k %s 2 0" % (nm, a, b))
+        elif kind == 14:
+            # three inputs (rates and lengths differ between the RAWs), real or complex scalars, explicit or implicit count
+            c = rng.choice(names)
+            lines.append("%s LINCOM %s%s 1 0 %s %s 0 %s 3 %s" % (nm, rng.choice(["3 ", ""]), a, b, rng.choice(["2", "2;1", "k"]), c, rng.choice(["0", "0;2", "z0"])))
+        elif kind == 15:
+            lines.append("%s LINCOM %s %s %s" % (nm, a, rng.choice(["1", "2", "0;1", "k"]), rng.choice(["0", "1", "3;3"])))
         elif kind == 1:
             lines.append("%s LINTERP %s lut%d" % (nm, a, rng.randint(0, 3)))
         elif kind == 2:
@@ -377,7 +383,9 @@ def gen_format(rng, d):
             open(os.path.join(d, "sub2.fmt"), "w").write("/INCLUDE sub.fmt A\nw CONST UINT8 1\n")
     # data files
     for nm, t, spf in raws:
-        nb = rng.choice([0, 1, 7, 40, 333, 4096 + rng.randint(0, 64)])
+        # lengths around the read windows of the harness (a few frames) so that multi-input fields see inputs
+        # ending at different places inside a window, plus empty / partial-sample / multi-buffer files
+        nb = rng.choice([0, 1, 7, 40, 333, 4096 + rng.randint(0, 64)] + [rng.randint(0, 12) * spf * TSIZE[t] + rng.choice([0, 0, 1]) for _ in range(4)])
         raw = bytes(rng.getrandbits(8) for _ in range(nb)) if rng.random() < 0.7 else bytes(nb)
         if enc == "none":
             open(os.path.join(d, nm), "wb").write(raw)
@@ -423,6 +431,48 @@ def gen_format(rng, d):
     return ("\n".join(lines) + "\n").encode()
 
 
+def gen_multirate(rng, d):
+    """focused grammar: a few short RAW files of different rates and lengths (none/gzip) and many multi-input
+    fields over them, so that every input-alignment and short-input clamp of the derived-field evaluators is
+    crossed by the fixed read windows of the harness (which start at samples 0, 1, 2, 3, 5, 7 and near the end)"""
+    enc = rng.choice(["none", "none", "none", "gzip"])
+    lines = ["/ENCODING " + enc, "/ENDIAN little"]
+    if rng.random() < 0.3:
+        lines.append("/FRAMEOFFSET %d" % rng.randint(1, 3))
+    raws = []
+    for i in range(rng.randint(3, 4)):
+        t = rng.choice(["UINT8", "INT16", "FLOAT32", "FLOAT64", "FLOAT64", "COMPLEX128"])
+        spf = rng.choice([1, 2, 3, 4, 5, 8])
+        raws.append(("r%d" % i, t, spf))
+        lines.append("r%d RAW %s %d" % (i, t, spf))
+    lines.append("ka CARRAY FLOAT64 1 2 3 4 5 6 7 8 9")
+    R = [r[0] for r in raws]
+    for i in range(rng.randint(5, 9)):
+        a, b, c = rng.choice(R), rng.choice(R), rng.choice(R)
+        k = rng.randrange(8)
+        nm = "m%d" % i
+        if k < 3:
+            lines.append("%s LINCOM 3 %s 1 0 %s 1 0 %s 1 0" % (nm, a, b, c))
+        elif k == 3:
+            lines.append("%s LINCOM 2 %s 2 1 %s 3;1 0" % (nm, a, b))
+        elif k == 4:
+            lines.append("%s %s %s %s" % (nm, rng.choice(["MULTIPLY", "DIVIDE"]), a, b))
+        elif k == 5:
+            lines.append("%s MPLEX %s %s %d %d" % (nm, a, b, rng.randint(0, 3), rng.randint(0, 5)))
+        elif k == 6:
+            lines.append("%s WINDOW %s %s %s %d" % (nm, a, b, rng.choice(["GE", "LT", "NE"]), rng.randint(0, 100)))
+        else:
+            lines.append("%s INDIR %s ka" % (nm, a))
+    for nm, t, spf in raws:
+        nsamp = rng.choice([0, 1, 2, 3, spf, 2 * spf + 1, rng.randint(0, 6 * spf), rng.randint(20, 60) * spf])
+        raw = bytes(rng.getrandbits(7) for _ in range(nsamp * TSIZE[t]))
+        if enc == "none":
+            open(os.path.join(d, nm), "wb").write(raw)
+        else:
+            open(os.path.join(d, nm + ".gz"), "wb").write(gzip.compress(raw))
+    return ("\n".join(lines) + "\n").encode()
+
+
 def mutate(rng, b):
     b = bytearray(b)
     r = rng.random()
@@ -457,7 +507,7 @@ def run_fuzz(chk, asan_impl, ncases):
     for ci in range(ncases):
         d = os.path.join(root, "z%d" % ci)
         os.makedirs(d)
-        fmt = mutate(chk.rng, gen_format(chk.rng, d))
+        fmt = gen_multirate(chk.rng, d) if ci % 4 == 3 else mutate(chk.rng, gen_format(chk.rng, d))
         open(d + "/format", "wb").write(fmt)
         jobs.append((d, fmt, "p" if ci % 5 == 0 else "n"))
 
@@ -690,24 +740,25 @@ def run_bzip(chk, drv, ncases):
     with cf.ThreadPoolExecutor(vlib.NPROC) as ex:
         res = list(ex.map(one, jobs))
 
-    # parse the harness logs, build the oracle scripts, ask the model
+    # parse the harness logs: the BZ2_bzRead answers logged before each "=" line are the oracle script of that call
+    # (a decoder that has failed once may answer anything later, so answers are not a function of the position)
     parsed, mlines = [], []
     for (size, raw, comp, mode, ops), (rci, out) in zip(meta, res):
-        script, sdec, evs, bad = {}, {}, [], None
+        script, sdec, evs, cur, scripts = {}, {}, [], [], []
         for l in out.splitlines():
             w = l.split(" ")
             if w[0] in ("O", "o") and len(w) >= 4:
                 dpos, n, err = int(w[1]), int(w[2]), int(w[3])
                 r = "E" if err not in (0, 4) else ("1" if err == 4 else "0")
-                if dpos in script and script[dpos] != (n, r):
-                    bad = "BZ2_bzRead answered differently at the same decoder position %d: %s vs %s" % (dpos, script[dpos], (n, r))
-                script[dpos] = (n, r)
-                if r != "E":
+                script[(len(evs), len(cur), dpos)] = (n, r)
+                cur.append("%d:%d:%s" % (dpos, n, r))
+                if r != "E" and w[0] == "O":
                     sdec[dpos] = bytes.fromhex(w[4]) if len(w) > 4 and w[4] else b""
             elif w[0] == "=":
                 evs.append(w[1:])
-        parsed.append((script, sdec, evs, bad))
-        mlines.append("B %d %s %s" % (size, ",".join("%d:%d:%s" % (dp, n, r) for dp, (n, r) in sorted(script.items())) or "-", " ".join(ops)))
+                scripts.append(",".join(cur)); cur = []
+        parsed.append((script, sdec, evs, None))
+        mlines.append("B %d %s" % (size, " ".join("%s@%s" % (op, scripts[i] if i < len(scripts) else "") for i, op in enumerate(ops))))
     rc, mo = vlib.sh([drv], inp=("\n".join(mlines) + "\n").encode(), timeout=900)
     mo = mo.split("\n")
 
@@ -727,7 +778,7 @@ def run_bzip(chk, drv, ncases):
             continue
         # the assumed contract of BZ2_bzRead (what the theorems assume of the decoder)
         L = len(raw)
-        for dp, (n, r) in script.items():
+        for (_, _, dp), (n, r) in script.items():
             okc = 0 <= n <= CAP and (r != "0" or n == CAP)
             if mode == "valid" and r != "E":
                 okc = okc and dp + n <= L and (r != "1" or dp + n == L)
